@@ -6,6 +6,7 @@ import (
 	"fmt"
 	"reflect"
 	"strconv"
+	"strings"
 	"sync/atomic"
 
 	"github.com/xinchentechnote/fin-proto-go/codec"
@@ -371,6 +372,11 @@ func c12(e *Env) {
 				}
 				probe(tc, string(k)+" ", true)
 				probe(tc, " "+string(k), true)
+				probe(tc, string(k[1:]), true)                        // leading character dropped ("010" -> "10")
+				probe(tc, strings.TrimLeft(string(k), "0"), true)     // leading zeros dropped
+				probe(tc, strings.TrimLeft(string(k), "0")+" ", true) // … and blank-filled to the field width
+				probe(tc, " "+string(k[1:]), true)
+				probe(tc, strings.ToLower(string(k)), len(k) > 0 && k[0] > '9')
 				probe(tc, string(k[:len(k)-1]), true)
 				probe(tc, string(k)+"0", true)
 			}
